@@ -282,8 +282,12 @@ func runC02(c *lib.Ctx) {
 	c02Histories(c, r, cases[nSweep:])
 
 	// --- (f) the secondary entry points, called through Lisp: read-each, read-push, read in a loop, load
+	cpu0 := c02CPUSeconds()
 	c02LispFamily(c, r, cases[:nSweep], cases[nSweep:])
 	c02Leave()
+	// informational only (CPU seconds of this process; no verdict depends on a time)
+	c.Ev.Coverage["cpu_s_lisp_family"] = int(c02CPUSeconds() - cpu0 + 0.5)
+	c.Ev.Coverage["cpu_s_all_families"] = int(c02CPUSeconds() + 0.5)
 
 	// --- signatures need the lexer mode at the cut: ask the model
 	var modeReqs []string
